@@ -69,3 +69,24 @@ def raw_compile(pattern, namespaces=None, custom=None, flags=0):
         cp.CSSParser(pattern, custom=cp.process_custom(cs), flags=flags).process_selectors(),
         ns, cs, flags
     )
+
+
+import contextlib  # noqa: E402
+
+if SYMBOLIC:
+    from crosshair.tracers import NoTracing as _NoTracing
+    from crosshair.core import realize as _realize
+
+    def concrete(x):
+        """Force the solver to pick a concrete value for an (index-like) symbolic."""
+        return _realize(x)
+
+    def notrace():
+        """Run a purely concrete block natively (no symbolic value may flow into it)."""
+        return _NoTracing()
+else:
+    def concrete(x):
+        return x
+
+    def notrace():
+        return contextlib.nullcontext()
